@@ -266,12 +266,14 @@ package resolver
 //@   assert at call (*middleware/resolver.Resolver).findRRSIGSigners#1: !old(req.CheckingDisabled) && (!old(r.dnssec) || lastret("(*middleware/resolver.Resolver).hasTrustAnchors"))
 //@   assert at call (*middleware/resolver.Resolver).findDS#2: lastret("middleware/resolver/dnssec.ValidateSigner") == nil && arg2 == signer
 //@   assert at call (*middleware/resolver.Resolver).verifyDNSSEC#1: lastret("middleware/resolver/dnssec.ValidateSigner") == nil && arg2 == signer && arg4 == resp && arg5 == lastret("(*middleware/resolver.Resolver).findDS") && len(arg5) > 0
-//@   assert at return#12: lastret("(*middleware/resolver.Resolver).verifyDNSSEC") && len(result0) > 0 && result1 == nil
-//@   assert at return#14: lastret("(*middleware/resolver.Resolver).verifyDNSSEC") && lastret("middleware/resolver/dnssec.VerifyDelegationForZoneWithWork") == nil
-//@   assert at return#16: lastret("(*middleware/resolver.Resolver).verifyDNSSEC") && lastret("middleware/resolver/dnssec.VerifyDelegationNSEC") == nil
-//@   assert at return#17: result1 != nil
+//@   assert at return#13: lastret("(*middleware/resolver.Resolver).verifyDNSSEC") && len(result0) > 0 && result1 == nil
+//@   assert at return#15: lastret("(*middleware/resolver.Resolver).verifyDNSSEC") && lastret("middleware/resolver/dnssec.VerifyDelegationForZoneWithWork") == nil
+//@   assert at return#17: lastret("(*middleware/resolver.Resolver).verifyDNSSEC") && lastret("middleware/resolver/dnssec.VerifyDelegationNSEC") == nil
+//@   assert at return#18: result1 != nil
 //@   assert at call middleware/resolver/dnssec.VerifyDelegationForZoneWithWork#1: arg2 == lastret("internal/dnsutil.FilterRRsToZone")
 //@   assert at call middleware/resolver/dnssec.VerifyDelegationNSEC#1: arg1 == lastret("internal/dnsutil.FilterRRsToZone")
+//@   # C13: a signature-status probe that failed for a reason local to this request is returned as that error
+//@   assert at return#9: result0 == nil && result1 == lastret("(*middleware/resolver.Resolver).zoneSecure", 1) && result1 != nil
 //@
 //@ # ---- C02: RFC 8020 stop. Resolution stops at a minimised NXDOMAIN only when authority() validated it without
 //@ # error AND the validated-denial provenance for that exact reply is aggressive-eligible and not resting on an
